@@ -3,6 +3,7 @@
 //! traces that the Trace*.tla modules validate, or replays TLC-generated behaviours.
 
 mod api;
+mod builder;
 mod cfgcmd;
 mod choice;
 mod comp;
@@ -11,6 +12,7 @@ mod fill;
 mod gen;
 mod headers;
 mod history;
+mod long;
 mod mutate;
 mod par;
 mod parcmd;
@@ -103,6 +105,8 @@ fn main() {
         "cfg07" => cfgcmd::cmd_cfg07(&a),
         "comp" => comp::cmd_comp(&a),
         "choice" => choice::cmd_choice(&a),
+        "long" => long::cmd_long(&a),
+        "builder" => builder::cmd_builder(&a),
         "api" => api::cmd_api(&a),
         "headers" => headers::cmd_headers(&a),
         "mutate" => mutate::cmd_mutate(&a),
